@@ -24,6 +24,7 @@ theorem store_plain : (t : PyVal) → Plain t = true → store t = .ok t
   | .npfloat _, h => by simp [Plain] at h
   | .npbool _, h => by simp [Plain] at h
   | .ndarray _, h => by simp [Plain] at h
+  | .arraylike _, h => by simp [Plain] at h
   | .tuple _, h => by simp [Plain] at h
   | .list xs, h => by
       simp only [Plain] at h
@@ -47,6 +48,7 @@ theorem decode_plain : (t : PyVal) → Plain t = true → decode t = .ok t
   | .npfloat _, h => by simp [Plain] at h
   | .npbool _, h => by simp [Plain] at h
   | .ndarray _, h => by simp [Plain] at h
+  | .arraylike _, h => by simp [Plain] at h
   | .tuple _, h => by simp [Plain] at h
   | .list xs, h => by
       simp only [Plain] at h
@@ -63,6 +65,7 @@ end
 theorem encode_eq_str (v : PyVal) (hv : Good v = true) (s : String) (h : encode v = .str s) : v = .str s := by
   cases v <;> simp [encode] at h ⊢
   · exact h
+  · rename_i t; subst h; simp [Good, Plain] at hv
   · rename_i t; subst h; simp [Good, Plain] at hv
 
 /-- encoding does not create or remove a `"_type": "tuple"` claim in a good dict -/
@@ -96,6 +99,7 @@ theorem store_encode : (v : PyVal) → Good v = true → store (encode v) = .ok 
   | .npfloat _, _ => by simp [encode, store]
   | .npbool _, _ => by simp [encode, store]
   | .ndarray t, h => by simp only [Good] at h; simp [encode, store_plain t h]
+  | .arraylike t, h => by simp only [Good] at h; simp [encode, store_plain t h]
   | .tuple xs, h => by
       simp only [Good] at h
       simp [encode, store, storeKV, storeL_encode xs h, keyToJson]
@@ -141,6 +145,7 @@ theorem decode_encode : (v : PyVal) → Good v = true → decode (encode v) = .o
   | .npfloat _, _ => by simp [encode, decode, norm]
   | .npbool _, _ => by simp [encode, decode, norm]
   | .ndarray t, h => by simp only [Good] at h; simp [encode, norm, decode_plain t h]
+  | .arraylike t, h => by simp only [Good] at h; simp [encode, norm, decode_plain t h]
   | .tuple xs, h => by
       simp only [Good] at h
       simp [encode, decode, lookup, decodeTupleValue, decodeL_encode xs h, norm]
@@ -179,6 +184,7 @@ def Pure : PyVal → Bool
   | .npfloat _ => false
   | .npbool _ => false
   | .ndarray _ => false
+  | .arraylike _ => false
   | .tuple xs => PureL xs
   | .list xs => PureL xs
   | .dict kvs => PureKV kvs
@@ -202,6 +208,7 @@ theorem norm_pure : (v : PyVal) → Pure v = true → norm v = v
   | .npfloat _, h => by simp [Pure] at h
   | .npbool _, h => by simp [Pure] at h
   | .ndarray _, h => by simp [Pure] at h
+  | .arraylike _, h => by simp [Pure] at h
   | .tuple xs, h => by simp only [Pure] at h; simp [norm, normL_pure xs h]
   | .list xs, h => by simp only [Pure] at h; simp [norm, normL_pure xs h]
   | .dict kvs, h => by simp only [Pure] at h; simp [norm, normKV_pure kvs h]
@@ -477,6 +484,62 @@ example : (classFields AbtemVerif.Gen.AxesClasses.axisClasses (AbtemVerif.Gen.Ax
       (fun fs => fs.map Prod.fst)
     = some ["label", "units", "tex_label", "tex_units", "_default_type", "_concatenate", "_ensemble_mean",
         "_squeeze", "sampling", "offset", "endpoint", "_main"] := by decide +kernel
+
+/-! ### the axis through the whole file path (composition of the two round trips) -/
+
+theorem arrToTuple_plain (t : PyVal) (h : Plain t = true) : arrToTuple t = t := by
+  cases t <;> simp [Plain] at h <;> simp [arrToTuple]
+
+theorem arrToTuple_norm (v : PyVal) (h : Good v = true) : arrToTuple (norm v) = norm v := by
+  cases v <;> simp [norm, arrToTuple]
+  · rename_i t; simp only [Good] at h; exact arrToTuple_plain t h
+  · rename_i t; simp only [Good] at h; exact arrToTuple_plain t h
+
+theorem normKV_put : (M : List (PKey × PyVal)) → (k : PKey) → (v : PyVal) → normKV (put M k v) = put (normKV M) k (norm v)
+  | [], k, v => by simp [put, normKV]
+  | (k', v') :: t, k, v => by
+      by_cases hk : k' = k
+      · simp [put, normKV, hk]
+      · simp [put, normKV, hk, normKV_put t k v]
+
+theorem normKV_fields (f : PyVal → PyVal) : (l : List (String × PyVal)) →
+    normKV (l.map fun kv => (PKey.s kv.1, f kv.2)) = l.map fun kv => (PKey.s kv.1, norm (f kv.2))
+  | [] => by simp [normKV]
+  | kv :: t => by simp [normKV, normKV_fields f t]
+
+/-- what the stated normalisation does to a serialised axis: it is the serialised axis with normalised fields -/
+theorem norm_axisToDict (a : Axis) (hg : ∀ kv ∈ a.fields, Good (arrToTuple kv.2) = true) :
+    norm (axisToDict a) = axisToDict ⟨a.cls, a.fields.map fun kv => (kv.1, norm (arrToTuple kv.2))⟩ := by
+  simp only [axisToDict, norm, normKV_put, normKV_fields, List.map_map]
+  congr 2
+  apply List.map_congr_left
+  intro kv hkv
+  simp [Function.comp, arrToTuple_norm _ (hg kv hkv)]
+
+/-- AXIS THROUGH THE FILE.  `axis_to_dict`, `encode_types`, JSON storage, `decode_types`, `axis_from_dict` composed: for a
+class of the table with distinct field names not containing `type`, and an axis whose serialised form passes the guard,
+the axis read back is the axis written, field by field, up to the stated normalisation (arrays as tuples of nested
+lists, numpy scalars as Python scalars). -/
+theorem axis_zarr_roundtrip (tbl : List ClassDecl) (a : Axis) (fs : List (String × PyVal))
+    (hfs : classFields tbl (tbl.length + 1) a.cls = some fs)
+    (hnames : a.fields.map Prod.fst = fs.map Prod.fst)
+    (hnd : (fs.map Prod.fst).Nodup) (hty : "type" ∉ fs.map Prod.fst)
+    (hgood : Good (axisToDict a) = true) (hg : ∀ kv ∈ a.fields, Good (arrToTuple kv.2) = true) :
+    (match roundtrip (axisToDict a) with
+     | .ok d => axisFromDict tbl d
+     | .error e => .error e)
+      = .ok ⟨a.cls, a.fields.map fun kv => (kv.1, norm (arrToTuple kv.2))⟩ := by
+  rw [roundtrip_good _ hgood, norm_axisToDict a hg]
+  simp only
+  have h := axis_from_to_dict tbl ⟨a.cls, a.fields.map fun kv => (kv.1, norm (arrToTuple kv.2))⟩ fs hfs
+    (by rw [← hnames]; simp [List.map_map, Function.comp]) hnd hty
+  rw [h]
+  congr 2
+  simp only [List.map_map]
+  apply List.map_congr_left
+  intro kv hkv
+  simp [Function.comp, arrToTuple_norm _ (hg kv hkv)]
+
 
 /-! ### non-vacuity -/
 example : Good (.dict [(.s "t", .tuple [.int 1, .tuple [.npfloat "2.5"], .list [.ndarray (.list [.int 1, .int 2])]])]) = true := by
